@@ -902,22 +902,28 @@ def h_ctor(spec, env):
                     i += 1
                     if not env.begin(i):
                         continue
-                    if env.dry:
+                    cls = None
+                    if kl > K.KEYMAX:
+                        cls = ("key_longer_than_field", "write", kl - K.KEYMAX)
+                    elif il > K.NONCE:
+                        cls = ("iv_longer_than_field", "write", il - K.NONCE)
+                    if cls is not None:
+                        if not env.risky(F_AEAD_INIT, cls, (name, kl, il)):
+                            continue
+                    elif env.dry:
                         continue
                     try:
                         mon = MonAEAD(env, name, pattern(kl, 1), pattern(il, 2))
                     except Exception as e:  # noqa
-                        env.shim_poll(F_AEAD_INIT, None, (name, kl, il))
-                        env.counts["ctor_rejected"] += 1
+                        env.shim_poll(F_AEAD_INIT, cls, (name, kl, il))
+                        env.counts["rejected" if cls is not None else "ctor_rejected"] += 1
                         if env.trace:
                             env.tr("AEAD(%r, key=%d, iv=%d) raised %s" % (name, kl, il, _exc_name(e)))
                         continue
                     made += 1
                     env.counts["ctor_ok"] += 1
-                    if kl > K.KEYMAX or il > K.NONCE:
-                        env.violation("contract", F_AEAD_INIT,
-                                      ("key_or_iv_longer_than_field", "write", max(kl - K.KEYMAX, il - K.NONCE)),
-                                      "returned_normally",
+                    if cls is not None:
+                        env.violation("contract", F_AEAD_INIT, cls, "returned_normally",
                                       "AEAD(%r, key=%d bytes, iv=%d bytes) was constructed although key/iv do "
                                       "not fit the %d/%d-byte fields" % (name, kl, il, K.KEYMAX, K.NONCE),
                                       (name, kl, il))
